@@ -172,6 +172,14 @@ func (it *RangeLimitedIterator) Valid() bool {
 			}
 		}
 	} else {
+		if it.r.Max != nil {
+			// the reverse seek may fall back to the first key (see rangeLimitIterator),
+			// which can be beyond the max of the range
+			r := bytes.Compare(it.Iterator.RefKey(), it.r.Max)
+			if r > 0 || (r == 0 && it.r.Type&common.RangeROpen > 0) {
+				return false
+			}
+		}
 		if it.r.Min != nil {
 			r := bytes.Compare(it.Iterator.RefKey(), it.r.Min)
 			if it.r.Type&common.RangeLOpen > 0 {
